@@ -92,7 +92,7 @@ def build_driver():
 
 
 HOOKS = {'ok': True, 'note': ''}
-HOOKED_OPS = ('step', 'sigops', 'rlines')
+HOOKED_OPS = ('step', 'sigops', 'rlines', 'ast')
 
 
 def build_harness():
